@@ -53,7 +53,7 @@ func RunIngest(sc IngestScenario) (evs []Ev, inconclusive string) {
 	}
 	pc.OverflowConfig.ExpansionConfig.GrowthFactor = 1.5
 	pc.OverflowConfig.BlockTimeout = 0
-	s := streamsql.New(streamsql.WithCustomPerformance(pc), streamsql.WithDiscardLog())
+	s := newInstance(streamsql.WithCustomPerformance(pc), streamsql.WithDiscardLog())
 	if err := s.Execute("SELECT id, p FROM stream"); err != nil {
 		return nil, "execute: " + err.Error()
 	}
@@ -63,7 +63,6 @@ func RunIngest(sc IngestScenario) (evs []Ev, inconclusive string) {
 			s.Stop()
 		}
 	}()
-	in.Bind(s.Stream())
 	in.Log(Ev{"tr": sc.Tr, "e": "reset", "strategy": sc.Strategy, "data": sc.Data, "max": pc.BufferConfig.MaxBufferSize, "producers": sc.Producers, "rows": sc.Rows, "directed": b2i(sc.Directed || sc.SampleRace)})
 	perturb := func() {
 		if !sc.Perturb {
@@ -89,6 +88,7 @@ func RunIngest(sc IngestScenario) (evs []Ev, inconclusive string) {
 		}
 		return nil
 	}
+	in.Bind(s.Stream()) // after OnHook / Perturb are set: engine goroutines may reach a hook point at once
 	sinkGate := make(chan struct{})
 	var firstSink sync.Once
 	sinkParked := make(chan struct{}, 1)
